@@ -9,6 +9,30 @@ using namespace opensmt;
 static uint32_t pick(uint32_t below) { uint32_t c = nondet_u8(); VASSUME(c < below); return c; }
 // names: "x","y","z".  Global scope (declared constants): x -> 201, y -> 202, z -> 203.
 static PTRef global_of(char c) { return PTRef{201u + (uint32_t)(c - 'x')}; }
+
+// ---- LetRecords model: the std::unordered_map<std::string, LetBinder> / std::vector<std::string> containers of the real LetRecords do
+// not scale in CBMC; the model keeps the same bookkeeping over an array indexed by the (one-letter) name, with the REAL LetBinder objects
+// (current value + shadow stack) and the same frame logic as LetRecords::pushFrame/popFrame/addBinding/getOrUndef.
+union BinderBox { LetBinder b; BinderBox() {} ~BinderBox() {} };
+static BinderBox binders[3]; static bool has_binder[3];
+static int known[8]; static int n_known; static int frame_limit[4]; static int n_frames; static bool model_overflow, bad_name;
+static int name_index(char const * s) { if (s == nullptr || s[0] < 'x' || s[0] > 'z' || s[1] != 0) { bad_name = true; return 0; } return s[0] - 'x'; }
+static void m_reset() { for (int i = 0; i < 3; i++) has_binder[i] = false; n_known = n_frames = 0; model_overflow = bad_name = false; }
+static void m_pushFrame() { if (n_frames >= 4) { model_overflow = true; return; } frame_limit[n_frames++] = n_known; }
+static void m_popFrame() {
+    if (n_frames == 0) { model_overflow = true; return; }
+    int limit = frame_limit[--n_frames];
+    while (n_known > limit) { int i = known[--n_known]; if (binders[i].b.hasShadowValue()) binders[i].b.restoreShadowedValue(); else has_binder[i] = false; }
+}
+static void m_addBinding(int i, PTRef arg) {
+    if (!has_binder[i]) { new (&binders[i].b) LetBinder(arg); has_binder[i] = true; } else binders[i].b.addValue(arg);
+    if (n_known >= 8) { model_overflow = true; return; }
+    known[n_known++] = i;
+}
+static PTRef m_get(int i) { return has_binder[i] ? binders[i].b.getValue() : PTRef_Undef; }
+extern "C" void stub_addBinding(LetRecords *, std::string const & name, PTRef arg) { if (name.size() != 1) { bad_name = true; return; } m_addBinding(name_index(name.c_str()), arg); }
+extern "C" PTRef stub_getOrUndef(LetRecords const *, char const * s) { return m_get(name_index(s)); }
+
 static PTRef seen[4]; static int n_seen; static bool bad_node;
 // Interpret::parseTerm for the bound terms (each is a symbol): let-bound name -> its CURRENT binding in letRecords, else the global constant
 extern "C" PTRef stub_parseTerm(Interpret *, ASTNode const & term, LetRecords & lr) {
@@ -22,52 +46,67 @@ extern "C" PTRef stub_parseTerm(Interpret *, ASTNode const & term, LetRecords & 
 }
 extern "C" bool stub_hasSym(Logic *, char const *) { return false; }     // the bound names are not symbols marked "no scoping"
 
-static char * mkname(char c) { char * p = (char *)malloc(2); p[0] = c; p[1] = 0; return p; }
-static ASTNode * binding(char name, char rhs) {
-    ASTNode * vb = new ASTNode(TERM_T, mkname(name));
-    vb->children = new std::vector<ASTNode *>();
-    vb->children->push_back(new ASTNode(TERM_T, mkname(rhs)));
-    return vb;
+// AST in static, typed storage (no heap): node = {type, tok, val, children}; children vectors laid out by hand over static arrays
+union NodeBox { ASTNode n; NodeBox() {} ~NodeBox() {} };
+union VecBox { std::vector<ASTNode *> v; VecBox() {} ~VecBox() {} };
+static NodeBox nb_root, nb_vb[2], nb_rhs[2]; static VecBox vb_root, vb_vb[2];
+static ASTNode * arr_root[2]; static ASTNode * arr_vb[2][1]; static char names[4][2];
+static void set_vec(std::vector<ASTNode *> & v, ASTNode ** a, int n) { v._M_impl._M_start = a; v._M_impl._M_finish = a + n; v._M_impl._M_end_of_storage = a + n; }
+static ASTNode * build_let(char b0, char r0, char b1, char r1) {
+    char const bn[2] = {b0, b1}, rn[2] = {r0, r1};
+    for (int k = 0; k < 2; k++) {
+        names[k][0] = bn[k]; names[k][1] = 0; names[2 + k][0] = rn[k]; names[2 + k][1] = 0;
+        new (&nb_rhs[k].n) ASTNode(TERM_T, names[2 + k]);
+        new (&nb_vb[k].n) ASTNode(TERM_T, names[k]);
+        arr_vb[k][0] = &nb_rhs[k].n; set_vec(vb_vb[k].v, arr_vb[k], 1); nb_vb[k].n.children = &vb_vb[k].v;
+        arr_root[k] = &nb_vb[k].n;
+    }
+    new (&nb_root.n) ASTNode(TERM_T, (char *)nullptr);
+    set_vec(vb_root.v, arr_root, 2); nb_root.n.children = &vb_root.v;
+    return &nb_root.n;
 }
 union InterpBox { Interpret i; InterpBox() {} ~InterpBox() {} };
 static InterpBox ibox; static uint64_t fake_logic[2];
 
-// one scenario = one outer scope (OX/OY: an enclosing let binds x / y) and one pair of right-hand sides; everything concrete per
-// scenario (symbolic string contents / conditionally built hash tables make the libstdc++ containers explode); the entry selects the
-// scenario symbolically, so all 36 are decided in one query
-template<bool OX, bool OY, int R0, int R1> static void scenario() {
+union RecBox { LetRecords r; RecBox() {} ~RecBox() {} };
+static RecBox recbox;        // never constructed: every LetRecords member function used is redirected to the model
+// One scenario = outer scope (OX/OY: an enclosing let binds x / y), binding order B0 and right-hand sides R0, R1: executed with concrete
+// strings (symbolic string contents make the encoding explode); the entries select the scenario symbolically, all are decided.
+template<bool OX, bool OY, int B0, int R0, int R1> static void scenario() {
     Interpret * I = &ibox.i;
     *reinterpret_cast<void **>(&I->logic) = fake_logic;
-    LetRecords lr; lr.pushFrame();
-    if (OX) lr.addBinding("x", PTRef{101});
-    if (OY) lr.addBinding("y", PTRef{102});
+    LetRecords & lr = recbox.r;
+    m_reset(); m_pushFrame();
+    if (OX) m_addBinding(0, PTRef{101});
+    if (OY) m_addBinding(1, PTRef{102});
     PTRef outer[3] = { OX ? PTRef{101} : global_of('x'), OY ? PTRef{102} : global_of('y'), global_of('z') };
-    // (let ((x r0) (y r1)) ...)   (binding names of one let are pairwise different: SMT-LIB)
-    ASTNode * bindings = new ASTNode(TERM_T, (char *)nullptr);
-    bindings->children = new std::vector<ASTNode *>();
-    bindings->children->push_back(binding('x', (char)('x' + R0)));
-    bindings->children->push_back(binding('y', (char)('x' + R1)));
+    const int B1 = 1 - B0;     // binding names of one let are pairwise different (SMT-LIB)
+    ASTNode * bindings = build_let((char)('x' + B0), (char)('x' + R0), (char)('x' + B1), (char)('x' + R1));
     n_seen = 0; bad_node = false;
-    lr.pushFrame();
+    m_pushFrame();
     bool ok = I->addLetFrame(*bindings, lr);
-    VASSERT(ok && !bad_node && n_seen == 2, "both bindings are read, each right-hand side once");
+    VASSERT(!model_overflow && !bad_name && !bad_node, "harness model bounds suffice, only the names of the let are used");
+    VASSERT(ok && n_seen == 2, "both bindings are read, each right-hand side once");
     VASSERT(seen[0] == outer[R0], "first right-hand side is resolved in the scope outside the let");
     VASSERT(seen[1] == outer[R1], "second right-hand side is resolved in the scope outside the let (parallel let, not let*)");
-    VASSERT(lr.getOrUndef("x") == outer[R0] && lr.getOrUndef("y") == outer[R1], "after the frame both names are bound to the terms of the outer scope");
-    VASSERT(lr.getOrUndef("z") == PTRef_Undef, "other names stay unbound");
-    lr.popFrame();
-    VASSERT(lr.getOrUndef("x") == (OX ? PTRef{101} : PTRef_Undef) && lr.getOrUndef("y") == (OY ? PTRef{102} : PTRef_Undef), "popFrame restores the outer bindings");
+    VASSERT(m_get(B0) == outer[R0] && m_get(B1) == outer[R1], "after the frame both names are bound to the terms of the outer scope");
+    VASSERT(m_get(2) == PTRef_Undef, "other names stay unbound");
+    m_popFrame();
+    VASSERT(m_get(0) == (OX ? PTRef{101} : PTRef_Undef) && m_get(1) == (OY ? PTRef{102} : PTRef_Undef), "popFrame restores the outer bindings");
     VWITNESS("done");
+    if (OX || OY) { VWITNESS("enclosing-let-shadowed"); } else { VWITNESS("outer-scope-global"); }
 }
-template<bool OX, bool OY> static void outer_scope() {
-    uint32_t r = pick(9);
-    switch (r) {
-    case 0: scenario<OX, OY, 0, 0>(); break; case 1: scenario<OX, OY, 0, 1>(); break; case 2: scenario<OX, OY, 0, 2>(); break;
-    case 3: scenario<OX, OY, 1, 0>(); VWITNESS("swap-x-y"); break; case 4: scenario<OX, OY, 1, 1>(); break; case 5: scenario<OX, OY, 1, 2>(); break;
-    case 6: scenario<OX, OY, 2, 0>(); VWITNESS("second-rhs-mentions-first-name"); break; case 7: scenario<OX, OY, 2, 1>(); break;
-    default: scenario<OX, OY, 2, 2>(); VWITNESS("rhs-free-of-bound-names"); break;
-    }
+// quick tier: the scope-sensitive shapes (each scenario costs ~1 min of SAT time: std::string / std::vector<pair<PTRef,std::string>> inside
+// addLetFrame live on CBMC's byte-level heap), two scenarios per entry, selected symbolically
+extern "C" void h_let_swap() {              // (let ((x y) (y x)) ..): outer scope global / both names bound by an enclosing let
+    if (nondet_bool()) scenario<false, false, 0, 1, 0>(); else scenario<true, true, 0, 1, 0>();
 }
-extern "C" void h_let_global()  { outer_scope<false, false>(); }   // x, y denote global constants outside the let
-extern "C" void h_let_nested()  { outer_scope<true, true>(); }     // x, y bound by an enclosing let (shadowing)
-extern "C" void h_let_mixed()   { if (nondet_bool()) outer_scope<true, false>(); else outer_scope<false, true>(); }
+extern "C" void h_let_second_uses_first() { // (let ((x z) (y x)) ..): x global / x bound by an enclosing let
+    if (nondet_bool()) scenario<false, false, 0, 2, 0>(); else scenario<true, false, 0, 2, 0>();
+}
+extern "C" void h_let_first_uses_second() { // (let ((x y) (y z)) ..) and (let ((y x) (x z)) ..) with the used name bound by an enclosing let
+    if (nondet_bool()) scenario<false, false, 0, 1, 2>(); else scenario<true, false, 1, 0, 2>();
+}
+extern "C" void h_let_self_and_free() {     // (let ((x x) (y y)) ..) under an enclosing let of both; (let ((x z) (y z)) ..)
+    if (nondet_bool()) scenario<true, true, 0, 0, 1>(); else scenario<false, false, 0, 2, 2>();
+}
